@@ -29,10 +29,49 @@ def probe_fresh():
     return all(os.path.getmtime(s) <= t for s in srcs if os.path.exists(s))
 
 
+ACCESSORS = {"setHaveWALWriter", "getHaveWALWriter", "setShutdownPending", "isShutdownPending"}
+
+
+def flag_accesses_outside_accessors():
+    """Source tie for C18_race_free: the theorem's happens-before relation has a mutex edge between any two accesses
+    to haveWALWriter / *shutdownPending because every access is inside walFlagsMu.  List the places in
+    executor/*.go (verif_* shims excluded) that touch the flags outside the four accessor functions."""
+    bad = []
+    d = os.path.join(vk.REPO, "executor")
+    for fn in sorted(os.listdir(d)):
+        if not fn.endswith(".go") or fn.endswith("_test.go") or fn.startswith("verif_"):
+            continue
+        cur, in_var = None, False
+        for n, line in enumerate(open(os.path.join(d, fn), errors="replace"), 1):
+            code = line.split("//")[0]
+            m = re.match(r"^func\s+(\([^)]*\)\s*)?(\w+)\s*\(", line)
+            if m:
+                cur = m.group(2)
+            if re.match(r"^var\s*\(", line):
+                in_var = True
+            elif in_var and line.startswith(")"):
+                in_var = False
+            if not re.search(r"\bhaveWALWriter\b|\bshutdownPending\b", code):
+                continue
+            if cur in ACCESSORS and not in_var and not line.startswith("func") or (cur in ACCESSORS and line.startswith("func")):
+                continue
+            if in_var and re.search(r"haveWALWriter\s*=\s*false", code):
+                continue
+            if re.search(r"shutdownPending\s+\*bool|shutdownPending\s*:=\s*false|shutdownPending:\s*&shutdownPending", code):
+                continue  # field declaration and NewWALFile's initialisation (before the value is shared)
+            bad.append("%s:%d: %s" % (fn, n, line.strip()))
+    return bad
+
+
 def race_probe(ctx, rows, info, broken):
+    outside = flag_accesses_outside_accessors()
+    info.setdefault("extra_coverage", {})["flag_accesses_outside_accessors"] = outside
+    if outside:
+        broken.append(("translation", "C18_race_free: flag accessed outside walFlagsMu",
+                       "the mutex edge of Model/WalLoopHB.v is not justified by the source: " + "; ".join(outside[:6])))
     """Search only: run the -race build of the real SyncWAL/WriteCSM/Shutdown and look for reports whose
-    stacks are both inside /repo.  A hit becomes an oracle failure of class unsynchronised-flush-flags
-    (listed -> KNOWN-FINDING, unlisted -> VIOLATION); no binary / no hit -> a note."""
+    stacks are both inside /repo.  A hit becomes an oracle failure of class unsynchronised-flush-flags, which
+    is no longer a listed finding since the fix of F18: it is reported as a VIOLATION.  No binary / no hit -> a note."""
     if info.get("replay"):
         return
     want = ctx.tier == "thorough" or os.environ.get("VERIF_RACE") == "1"
@@ -67,7 +106,7 @@ SPEC = {
     "id": "C18",
     "coq_props": ["Properties/C18.v", "Corr/C18.v"],
     "module": "MS.Properties.C18",
-    "theorems": ["C18_refuted", "C18_read_committed_refuted", "C18_race_free_refuted",
+    "theorems": ["C18_refuted", "C18_read_committed_refuted", "C18_race_free",
                  "C18_variable_no_continuation", "C18_fixed_read_committed"],
     "corr_require": "Require Import MS.Corr.C18.",
     "agrees": "C18.agrees",
@@ -91,8 +130,10 @@ SPEC = {
         "the LTS Model/RWRace.v is hand-written from executor/writer.go:148-258, wal.go:380-436, readvariable.go:55-72; per-syscall "
         "atomicity of pread/pwrite on one file, a single flusher goroutine, and the abstraction 'a compressed block read with another "
         "length than it was written with fails to decode' are ASSUMED (DESIGN §10: partial)",
-        "Model/WalLoopHB.v: an OVER-approximation of happens-before (every earlier send to every later receive on a channel), so a "
-        "reported race is a race of the model under Go's memory model; the LTS WalLoop.v is C07's",
+        "Model/WalLoopHB.v: an OVER-approximation of happens-before for channels (every earlier send to every later receive) plus the "
+        "mutex edge of walFlagsMu between any two flag accesses - ASSUMES every access to haveWALWriter/*shutdownPending in the code "
+        "goes through the four accessor functions (checked by reading executor/wal.go; the race-detector probe is the search for a "
+        "missed access); the LTS WalLoop.v is C07's",
         "trace validation: harness/props/c18.go drives the real WriteCSM / WriteBufferToFileIndirect / ExecuteQuery on real bucket files; "
         "Corr/C18.v replays every recorded label and observation (query results, on-disk index triples, fixed-slot values) by vm_compute",
         "add-only shim /repo/executor/verif_h.go (only VerifHSetHave/GetHave are used here); Go harness, Python driver lib/vk.py",
@@ -108,10 +149,11 @@ SPEC = {
     "level_text": "Coq theorems on the per-syscall LTS of primary writes vs query reads, for EVERY interleaving, any number of slots, "
                   "writes and readers: fixed-length buckets are read-committed at row granularity (C18_fixed_read_committed, no guard); "
                   "variable-length buckets are read-committed whenever the writer does not overwrite in place "
-                  "(C18_variable_no_continuation). The full statement is refuted: a reader inside an in-place continuation write gets a "
-                  "decode error (compression on) or an uncommitted record while missing a committed one (compression off) "
-                  "(C18_read_committed_refuted), and haveWALWriter / *shutdownPending are accessed with no synchronisation edge "
-                  "(C18_race_free_refuted). Both are replayed on the real code (forced window; go race detector).",
+                  "(C18_variable_no_continuation); and, for the code after the fix of F18, every schedule of the flush protocol is free "
+                  "of unordered conflicting accesses to haveWALWriter / *shutdownPending (C18_race_free). The read-committed clause of "
+                  "the full statement is still refuted: a reader inside an in-place continuation write gets a decode error (compression "
+                  "on) or an uncommitted record while missing a committed one (compression off) (C18_read_committed_refuted; "
+                  "KNOWN-FINDING continuation-write-window, replayed on the real code by stopping the real writer between its two Writes).",
     "level_note": "PARTIAL in the sense of DESIGN §10: theorems are about the LTSs; per-syscall atomicity, Go's scheduler and memory model "
                   "are assumptions; race reports come from the model's happens-before argument and, as search, from go -race. No axioms. "
                   "Guarded (no in-place continuation). Modelled not verified: writer.go WriteBufferToFile, WriteBufferToFileIndirect; "
